@@ -3,8 +3,10 @@ package main
 import (
 	"encoding/json"
 	"fmt"
+	"reflect"
 	"strings"
 
+	"github.com/opsidian/parsley/ast"
 	"github.com/opsidian/parsley/parsley"
 	"github.com/opsidian/parsley/text"
 	sim "github.com/opsidian/parsley/zzsimrt"
@@ -180,6 +182,12 @@ func (*c14Prop) Decode(b []byte) (Case, error) {
 
 // observe runs one parse / evaluate and renders everything the caller can see.
 func (t *c14Task) observe(p parsley.Parser) (obs string) {
+	obs, _ = t.observeRaw(p)
+	return obs
+}
+
+// observeRaw also hands back the raw result (value or tree) for the aliasing oracle.
+func (t *c14Task) observeRaw(p parsley.Parser) (obs string, raw interface{}) {
 	defer func() {
 		if r := recover(); r != nil {
 			if _, ok := r.(sim.Abort); ok {
@@ -205,14 +213,89 @@ func (t *c14Task) observe(p parsley.Parser) (obs string) {
 	var sb strings.Builder
 	if t.Eval {
 		v, err := parsley.Evaluate(ctx, p)
+		raw = v
 		fmt.Fprintf(&sb, "val=%s err=%v", canon(v), err)
 	} else {
 		n, err := parsley.Parse(ctx, p)
+		raw = n
 		s, _ := renderNode(n, 1<<16)
 		fmt.Fprintf(&sb, "tree=%s err=%v", s, err)
 	}
 	fmt.Fprintf(&sb, " calls=%d ctxerr=%s", ctx.CallCount(), renderErr(ctx.Error()))
-	return sb.String()
+	return sb.String(), raw
+}
+
+// mutableParts collects the identities of the mutable objects a caller received: node
+// objects (through the Node interface only, never into their private fields, which
+// legitimately point at the shared grammar's interpreters), maps, non-empty slices and
+// pointers inside evaluated values. Strings and value-type nodes are immutable.
+func mutableParts(x interface{}, out map[uintptr]string, depth int) {
+	if x == nil || depth > 200 {
+		return
+	}
+	if n, ok := x.(parsley.Node); ok {
+		switch v := n.(type) {
+		case ast.NodeList:
+			for _, e := range v {
+				mutableParts(e, out, depth+1)
+			}
+			return
+		case ast.EmptyNode:
+			return
+		}
+		rv := reflect.ValueOf(n)
+		if rv.Kind() == reflect.Ptr && !rv.IsNil() {
+			if _, seen := out[rv.Pointer()]; seen {
+				return
+			}
+			out[rv.Pointer()] = fmt.Sprintf("node %T %q", n, n.Token())
+		}
+		if nt, ok := n.(parsley.NonTerminalNode); ok {
+			for _, c := range nt.Children() {
+				mutableParts(c, out, depth+1)
+			}
+		}
+		if l, ok := n.(parsley.LiteralNode); ok {
+			mutableParts(l.Value(), out, depth+1)
+		}
+		return
+	}
+	rv := reflect.ValueOf(x)
+	switch rv.Kind() {
+	case reflect.Map:
+		if rv.IsNil() {
+			return
+		}
+		if _, seen := out[rv.Pointer()]; seen {
+			return
+		}
+		out[rv.Pointer()] = fmt.Sprintf("%T of %d entries", x, rv.Len())
+		it := rv.MapRange()
+		for it.Next() {
+			if it.Value().CanInterface() {
+				mutableParts(it.Value().Interface(), out, depth+1)
+			}
+		}
+	case reflect.Slice:
+		if rv.IsNil() || rv.Cap() == 0 {
+			return // an empty slice has no writable element and may share the zero base
+		}
+		if _, seen := out[rv.Pointer()]; seen {
+			return
+		}
+		if rv.Type().Elem().Kind() != reflect.Uint8 {
+			out[rv.Pointer()] = fmt.Sprintf("%T of %d elements", x, rv.Len())
+		}
+		for i := 0; i < rv.Len(); i++ {
+			if rv.Index(i).CanInterface() {
+				mutableParts(rv.Index(i).Interface(), out, depth+1)
+			}
+		}
+	case reflect.Ptr:
+		if !rv.IsNil() {
+			out[rv.Pointer()] = fmt.Sprintf("%T", x)
+		}
+	}
 }
 
 func c14Hash(c *c14Case) uint64 {
@@ -247,6 +330,7 @@ func (*c14Prop) Run(cc Case) Verdict {
 	}
 	before := snapshotRoots()
 	obs := make([]string, n+1)
+	raws := make([]interface{}, n+1)
 	owned := make([]parsley.Parser, n+1)
 	info := runTasks(n, c.Sched, func(id int64) {
 		t := &c.Tasks[id-1]
@@ -255,7 +339,7 @@ func (*c14Prop) Run(cc Case) Verdict {
 			p = t.Own.construct()
 			owned[id] = p
 		}
-		obs[id] = t.observe(p)
+		obs[id], raws[id] = t.observeRaw(p)
 	})
 	after := snapshotRoots()
 	v.Steps = info.Steps
@@ -298,6 +382,24 @@ func (*c14Prop) Run(cc Case) Verdict {
 	}
 	for _, name := range grew {
 		v.Probes["root_counter_grew:"+name]++
+	}
+	// (6) the results handed to different callers share no mutable object
+	parts := make([]map[uintptr]string, n+1)
+	for i := 1; i <= n; i++ {
+		parts[i] = map[uintptr]string{}
+		if info.Ends[i].Aborted == 0 && info.Ends[i].Panic == nil {
+			mutableParts(raws[i], parts[i], 0)
+		}
+		for j := 1; j < i; j++ {
+			for ptr, what := range parts[i] {
+				if _, ok := parts[j][ptr]; ok {
+					v.Violation, v.Class = true, "alias:result"
+					v.Detail = fmt.Sprintf("the results returned to task %d (%s, input %q) and task %d (%s, input %q) share a mutable object: %s - a caller changing its result changes the other caller's", j, graphKind(c, &c.Tasks[j-1]), c.Tasks[j-1].Input, i, graphKind(c, &c.Tasks[i-1]), c.Tasks[i-1].Input, what)
+					return v
+				}
+			}
+		}
+		v.Probes["result_objects_compared"] += int64(len(parts[i]))
 	}
 	// (1) solo differential on twin graphs built after the concurrent phase, then on the
 	// very same shared graph
